@@ -143,7 +143,8 @@ def _dictify_dataclass(cfg_dataclass: Any) -> dict:
     """Copy a dict value while converting its elements from dataclass to dict."""
     ret: collections.OrderedDict = collections.OrderedDict()
     for field in dataclasses.fields(cfg_dataclass):
-        if hasattr(cfg_dataclass, field.name):
+        # Fields with init=False are not configuration items; config_struct_from_dict() would reject them.
+        if field.init and hasattr(cfg_dataclass, field.name):
             value = getattr(cfg_dataclass, field.name)
             ret[field.name] = _inner_config_struct_to_dict(value)
     return ret
